@@ -145,6 +145,23 @@ fn check_printed_pair(sk_text: &str, pk_text: &str) -> Result<(), Fail> {
     if !try_handshake(&other, &me)? {
         return Err(Fail::new("handshake_failed", format!("node trusting {:?} cannot dial node with key {:?}", pk_text, sk_text)));
     }
+    // (5) the same as one entry of a longer trusted-key list, at every position (entries are parsed one after the other)
+    for pos in 0..3usize {
+        let mut list = vec![keys[2].1.clone(), keys[3].1.clone()];
+        list.insert(pos, pk_text.to_string());
+        let other = CryptoConfig { private_key: Some(keys[1].0.clone()), trusted_keys: list, ..base.clone() };
+        mk_crypto(node_id(2), &other, [1.0, 1.0, 1.0]).map_err(|e| {
+            Fail::new("key_rejected", format!("trusted key {:?} at list position {} rejected: {}", pk_text, pos, e)).with("role", "trusted_in_list").with("error", format!("{}", e))
+        })?;
+        if !try_handshake(&me, &other)? {
+            return Err(Fail::new("handshake_failed", format!("node with key {:?} is not trusted when {:?} is entry {} of a 3-entry trusted-key list", sk_text, pk_text, pos)).with("role", "trusted_in_list"));
+        }
+        // and the other entries still denote their own keys
+        let third = CryptoConfig { private_key: Some(keys[3].0.clone()), trusted_keys: vec![keys[1].1.clone()], ..base.clone() };
+        if !try_handshake(&third, &other)? {
+            return Err(Fail::new("handshake_failed", format!("a neighbouring entry of the trusted-key list stopped working with {:?} at position {}", pk_text, pos)).with("role", "trusted_in_list"));
+        }
+    }
     Ok(())
 }
 
